@@ -396,6 +396,11 @@ let run_history (h : hist) (props : string list) stats =
     List.iter (fun (kind, what) ->
         if kind = "KNOWNHIT" then Printf.printf "KNOWNHIT %s C17 %s clause=171 step=0\n" h.hid what
         else Printf.printf "ORACLEFAIL %s C17 %s\n" h.hid what) (copy_checks h);
+  (* C17: "spans still open when the set was collected are closed at the collection time",
+     "the same durations": the duration clause of the time oracle applies to C17 as well *)
+  if props = ["C17"] then
+    List.iter (fun cl -> if cl = "duration-outside-execution-bracket" then Printf.printf "ORACLEFAIL %s C17 %s\n" h.hid cl)
+      (try time_checks h with e -> ["time-check-exception:" ^ Printexc.to_string e]);
   if props = ["C18"] then
     List.iter (fun cl -> Printf.printf "ORACLEFAIL %s C18 %s\n" h.hid cl) (try time_checks h with e -> ["time-check-exception:" ^ Printexc.to_string e]);
   Hashtbl.replace stats "actions" ((try Hashtbl.find stats "actions" with Not_found -> 0) + List.length acts);
